@@ -762,7 +762,10 @@ func GenKeys(r *Rng, n int) [][]byte {
 		var k []byte
 		switch c := r.Intn(40); {
 		case c == 0:
-			k = FillValue(r.U64(), r.Range(200, 3000)) // long key
+			k = FillValue(r.U64()|1, r.Range(200, 3000)) // long key
+			if r.Chance(1, 6) {
+				k = FillValue(r.U64()|1, r.Range(32<<10, 40<<10)) // key longer than a block
+			}
 		case c < 5:
 			k = make([]byte, r.Range(1, 12)) // varint-continuation bytes
 			for i := range k {
